@@ -202,6 +202,33 @@ def work_substances(idx, chunk, seed, reps):
                     if r2 is not None and expect_eq(part, "input_of_result", q2, r2, a, i.d):
                         part.count("inverse_ok")
                         part.seen("%s|%s|inverse" % (sname, pname))
+                # A7: the plain reply to `<amount> <substance>` reports the same property values (as printed)
+                if a > 0:
+                    for (amt_d, amt_1, shown_name, shown_v, shown_d) in ((i.d, i.v, on, o.v, o.d), (o.d, o.v, inn, i.v, i.d)):
+                        if not amt_d or not shown_d or amt_1 == 0 or dims_key(o.d) == dims_key(i.d):
+                            continue
+                        q7 = "%s %s %s" % (lit(a), base_product(amt_d), rs)
+                        r7 = ask(part, probe, q7)
+                        if r7 is None:
+                            continue
+                        rep7 = r7.get("r") or {}
+                        if rep7.get("kind") != "substance":
+                            part.count("amount_reply_other:%s" % rep7.get("kind"))
+                            continue
+                        for pr_ in rep7["properties"]:
+                            if pr_["name"] != shown_name:
+                                continue
+                            try:
+                                problems = P.check_parts(pr_["value"], reg, quantity=shown_v * (a / amt_1), qdims=shown_d)
+                            except (P.Unjudgeable, R.OutOfScope):
+                                part.count("display_unjudgeable")
+                                continue
+                            for kind7, detail in problems:
+                                part.violation({"kind": "amount_reply_" + kind7, "side": "output" if shown_name == on else "input"},
+                                               {"query": q7, "property": shown_name, "reply": (r7.get("text") or "")[:300], "detail": detail},
+                                               "the plain reply to `<amount> <substance>` shows a property value other than output*(a/input)")
+                            if not problems:
+                                part.count("amount_reply_ok")
                 # A4b: an amount that already has the dimensionality of the side being asked for is a wrong amount too
                 if o.d and dims_key(o.d) != dims_key(i.d):
                     q4 = "%s of (%s %s %s)" % (on, lit(a), base_product(o.d), rs)
